@@ -42,6 +42,19 @@ static std::vector<std::vector<Ev>> solo(const Case &c, int i) {
 #ifndef FLAVOUR_TSAN
 static Verdict run(const Case &c) {
     Verdict v;
+    // In a sampled (forked) evaluation each solo history additionally runs in a process of its own, forked BEFORE this process has
+    // executed any code under test: a process-wide cache or a function-local static introduced into the core is then not shared
+    // between "alone" and "interleaved".
+    std::vector<uint64_t> alone[2];
+    bool have_alone = false;
+    if (in_isolated_child()) {
+        have_alone = true;
+        for (int i = 0; i < 2; i++) {
+            bool okc = true;
+            alone[i] = digests_in_child([&] { std::vector<uint64_t> d; for (auto &e : solo(c, i)) d.push_back(ev_digest(e)); return d; }, &okc);
+            if (!okc) { v.fail(fmt("interface %d: the history run alone in a fresh process crashed", i)); return v; }
+        }
+    }
     std::vector<std::vector<Ev>> s[2] = {solo(c, 0), solo(c, 1)};
     HCfg h[2] = {cfg_of(c, 0), cfg_of(c, 1)};
     World w;
@@ -64,6 +77,12 @@ static Verdict run(const Case &c) {
         idx[i]++;
         if (last >= 0 && last != i) switches++;
         last = i;
+    }
+    if (v.ok && have_alone) {
+        for (int i = 0; i < 2 && v.ok; i++)   // the interleaved trace of interface i has just been verified to equal s[i]
+            for (size_t k = 0; k < s[i].size() && k < alone[i].size(); k++)
+                if (ev_digest(s[i][k]) != alone[i][k]) { v.fail(fmt("interface %d, its step %zu: the trace next to the other interface differs from the trace the same history produces alone in a freshly started process (process-wide state shared between interfaces)", i, k)); break; }
+        v.cls("solo-in-fresh-process");
     }
     v.nontrivial = tx[0] >= 2 && tx[1] >= 2 && switches >= 2;
     if (c.c(11)) v.cls("identical-configurations");
@@ -189,9 +208,40 @@ int main(int argc, char **argv) {
     bool ok;
 #ifndef FLAVOUR_TSAN
     ev.rule = "part 1 (this build): two interface contexts with independently generated configurations (or identical ones incl. the same station table) and histories, generated merge order, Reset on one in the middle of the other's session; "
-              "per-interface transmit trace under the interleaving must equal the trace of the same history run alone in a fresh process state. part 2 (TSan build): see histogram keys c17-threads. "
+              "per-interface transmit trace under the interleaving must equal the trace of the same history run alone in a fresh process state (for a sample of the cases, and for a deterministic family of configuration-dependent requests on two differently configured interfaces, 'alone' literally runs in a freshly forked process). part 2 (TSan build): see histogram keys c17-threads. "
               "non-trivial = both histories elicit >= 2 transmissions and the merge alternates >= 2 times; distinct = digest of the case";
-    ok = run_cases(a, ev, "c17-interleavings", a.n(15000, 400000), 100, gen(-1), run);
+    // deterministic family, each case in a fresh process: two interfaces that differ in every configuration value, every order of "who
+    // sees a frame first", and on each the requests whose answers depend on the interface's own configuration (Hello attributes, large-TLV
+    // chunking, QueryResp capacity, Emit capacity)
+    ok = true;
+    {
+        long k = 0;
+        for (size_t m0 : {(size_t)576, (size_t)1500, (size_t)9216}) for (size_t m1 : {(size_t)576, (size_t)1500, (size_t)9216}) for (int first = 0; first < 2; first++) {
+            if (!ok || k++ % a.nshards != a.shard) continue;
+            HCfg h; h.mtu = m0; h.wifi = 0; h.icon = Bytes(12000, 0x49); h.friendly = Bytes(700, 0x46); h.hostname = Bytes{'a', 'b'};
+            Case c; h.to_case(c);
+            c.cfg.push_back((int64_t)m1); c.cfg.push_back(1); c.cfg.push_back(0x0200000000F2LL); c.cfg.push_back(0); c.cfg.push_back(1);
+            auto per_if = [&](int i) {
+                std::vector<Op> v;
+                Op d; d.kind = K_DISCOVER + 100 * i; d.a = {0, 0, 1, 1, 0, 0, -1}; v.push_back(d);
+                Op q; q.kind = K_QLT + 100 * i; q.a = {-1, 5, 0x0E, 0, 0}; v.push_back(q);
+                Op q2; q2.kind = K_QLT + 100 * i; q2.a = {-1, 6, 0x11, 0, 0}; v.push_back(q2);
+                for (int p = 0; p < 130; p++) { Op o; o.kind = K_PROBE + 100 * i; o.a = {p, p % 3, p & 1, 0}; v.push_back(o); }
+                Op qq; qq.kind = K_QUERY + 100 * i; qq.a = {-1, 7}; v.push_back(qq);
+                Op e; e.kind = K_EMIT + 100 * i; e.a = {-1, 8, 0xFFFF}; e.blob = Bytes(14, 0); e.blob[0] = 1; v.push_back(e);
+                return v;
+            };
+            std::vector<Op> a0 = per_if(first), a1 = per_if(1 - first);
+            c.ops = a0;                                   // the interface that goes first completes its whole history ...
+            c.ops.insert(c.ops.end(), a1.begin(), a1.end());   // ... before the other one sees its first frame
+            CurrentScope scope(c);
+            Verdict v = a.isolate ? run_isolated(run, c) : run(c);
+            ev.note(c.digest(), v.ok, [&] { return c.to_text().substr(0, 300); });
+            ev.count("c17-config-crosstalk:cases");
+            if (!v.ok) { write_file(a.failing, "# c17-config-crosstalk: " + v.why + "\n" + c.to_text()); fprintf(stderr, "FAIL part=c17-config-crosstalk %s\n", v.why.c_str()); ok = false; }
+        }
+    }
+    if (ok) ok = run_cases(a, ev, "c17-interleavings", a.n(15000, 400000), 100, gen(-1), run);
 #else
     ev.rule = "part 2 (this build, ThreadSanitizer, lock-free thread-local port): per round two threads are released by a barrier and each delivers its generated history to its own interface context. Phase A: both contexts new "
               "(both first frames at the same moment); phase B: both contexts warmed up sequentially first. Every ThreadSanitizer report is classified by the innermost core frame of both racing accesses; "
